@@ -271,6 +271,9 @@ pub fn placeholder_pool(e: &str, full: bool) -> Vec<Val> {
             "i64" => [i64::MIN, i64::MAX, i64::MIN + 1, 0, 1, -1, 1 << 31, 1 << 32, 3037000500, 1 << 62, 63, 64, 20, 21]
                 .iter().map(|x| Val::I(*x)).collect(),
             "dec" => vec![Decimal::MAX, Decimal::MIN, Decimal::new(1, 28), Decimal::new(-1, 28), Decimal::new(150, 2), Decimal::new(15, 1), Decimal::ZERO,
+                          // wide coefficients that end in zeros (the scale is part of the value of `@`)
+                          Decimal::from_i128_with_scale(25000000000000000000, 19), Decimal::from_i128_with_scale(110000000000000000000000000, 26),
+                          Decimal::from_i128_with_scale(-7500000000000000000000, 21), Decimal::from_i128_with_scale(30000000000000000000000000000, 28),
                           Decimal::new(i64::MAX, 0), Decimal::new(1, 0), Decimal::new(27, 0), Decimal::new(28, 0), Decimal::new(5, 1)]
                 .into_iter().map(Val::D).collect(),
             "cpx" => vec![Complex::new(f64::NAN, 0.0), Complex::new(f64::INFINITY, -0.0), Complex::new(-0.0, -0.0), Complex::new(0.0, 0.0), Complex::new(0.0, 1.0),
@@ -523,7 +526,7 @@ pub fn related_foreign(chars: &[String]) -> Vec<char> {
                 "PI_SYM" | "p" | "i" => &['\u{03A0}', '\u{03D6}', '\u{1D70B}'],
                 "@" => &['\u{FF20}', '\u{FE6B}'],
                 "+" | "-" | "*" | "/" | "(" | ")" | "^" | "%" => &['\u{FF0B}', '\u{2212}', '\u{00D7}', '\u{00F7}', '\u{2215}', '\u{FF08}', '\u{FF09}'],
-                x if x.len() == 1 && x.as_bytes()[0].is_ascii_digit() => &['\u{FF11}', '٣', '𝟙', '\u{2080}', '\u{2071}'],
+                x if x.len() == 1 && x.as_bytes()[0].is_ascii_digit() => &['\u{FF11}', '٣', '𝟙', '\u{2080}', '\u{2071}', '\u{012B}', '\u{012A}', '\u{012D}', '\u{015E}', '\u{012E}'],
                 _ => &[],
             };
             for r in rel { if !v.contains(r) { v.push(*r); } }
